@@ -390,6 +390,8 @@ class Gen:
                 for tb, tc in self.vblocks(ci, budget - 2 - cc):
                     for eb, ec in self.vblocks(ci, budget - 2 - cc - tc):
                         add(("Let", ("Sym", "x"), None, ("If", cond, tb, eb)), 2 + cc + tc + ec, declare_int(c, "x"))
+                        # the same as the right operand of an addition whose left operand is side-effect free
+                        add(("Let", ("Sym", "x"), None, ("Bin", a0, "+", ("Paren", ("If", cond, tb, eb)))), 3 + cc + tc + ec, declare_int(c, "x"))
             for scrut, cs, ((p1, bind1), (p2, bind2)), live in scrutinees(c)[:3]:
                 c1 = declare_int(ci, "n") if bind1 else ci
                 c2 = declare_int(ci, "n") if bind2 else ci
